@@ -314,6 +314,9 @@ def c113(ctx):
         wrong = [name for name, pt in cursor_calls(f) if name in ("next", "prev") and name != m]
         ctx.check(R, f, "direction", not wrong and len(adv) == 2, "%s advances children only with %s (all-children loop + root)" % (m, m),
                   "%s advances children with %s / has %d advance sites" % (m, sorted(set(wrong)) or m, len(adv)))
+        repos = sorted({name for name, pt in cursor_calls(f) if name in ("seek", "seek_to_first", "seek_to_last")})
+        ctx.check(R, f, "steps-only", not repos, "%s moves children by single steps only (a child parked before its first or past its last entry is stepped from there)" % m,
+                  "%s repositions a child with %s: a child parked at the other end is brought back into the merge and its entries are yielded twice or out of order" % (m, repos))
         heads = [h for h in P.call_points(f, r"IterMut as core::iter::traits::iterator::Iterator>::next$") if P.reach(f, P.after(f, h), [h])]
         in_loop = [p for p in adv if any(P.reach(f, P.after(f, p), [h]) for h in heads)]
         root = [p for p in adv if p not in in_loop]
